@@ -120,6 +120,10 @@ UNITS = {
         ],
         'trusted': ['SeqFormat::get is checked by Kani on its verbatim extracted text (enum + inherent impl), BOUNDED: see bounded_standins'],
     },
+    'oligocgr_vec': {
+        'template': 'oligocgr_vec.vrs', 'backend': 'verus',
+        'serves': ['C12'],
+    },
     'n2k': {
         'template': 'n2k.vrs', 'backend': 'verus',
         'serves': ['C02', 'C03'],
@@ -250,6 +254,25 @@ PROPS = {
         'level_note': 'assumed, not verified: std::sync::Mutex mutual exclusion, rayon::scope joins all tasks, par_iter().map().collect() preserves order, BufWriter/mmap flush; worker interleavings are NOT enumerated '
                       '(Kani has no threads; no Verus model of std Mutex/rayon). FASTA/FASTQ/gzip equivalence is parser behaviour (C06). Header = exactly one first line: the lifted layout fragment (header slot) and the header-write statement.',
         'not_reached': ['worker interleavings (assumed primitives)', 'container equivalence (bio/flate2)', 'closure glue between the lifted fragments'],
+    },
+    'C12': {
+        'units': ['oligocgr_vec', 'oligo_vec', 'header', 'cgr', 'batch_loops', 'float_kani'], 'deps': ['kmer_gen', 'posmaps', 'n2k'], 'replay': 'c12',
+        'level_text': 'Verus proves for the verbatim OligoCgrComputer::vectorise_one: the row has one triple per canonical column, in column order; (x,y) is the chaos-game end point '
+                      '(midpoint recurrence from the centre) of the column k-mer text - a function of the column alone, hence the same in every row - and f is exactly the value the oligo row contract (C04, '
+                      'same spec, proved for seq_to_kmer) gives that column; the record is never rejected. The k-mer table, the private cgr_maps copy and the batch loop of this subcommand are under the C03/C11/C05 contracts.',
+        'level_note': 'trusted: as C04 and C11 (float abstraction R9 with axioms A1/A3 by Kani; R8 zip -> index loop over min(len,len); String::as_bytes of ASCII text == its characters (assumed UTF-8 fact)); imported contracts of seq_to_kmer, '
+                      'kmer_pos_maps, numeric_to_kmer run as dependencies. OligoCgrComputer::new itself (wiring of the tables into the struct) is not extracted: the contract takes the tables as preconditions.',
+        'not_reached': ['OligoCgrComputer::new wiring (tables -> struct fields)', 'text rendering "({},{},{})" and file writing', 'thread independence rests on rayon collect order (assumed)'],
+    },
+    'C13': {
+        'units': ['oligo_vec', 'header', 'cgr'], 'deps': ['kmer_gen', 'posmaps', 'n2k', 'minimiser'], 'replay': None,
+        'level_text': 'Narrow claim. The loops that the Python binding duplicates from the core (OligoComputer::vectorise_one, get_header, CgrComputer::vectorise_one in pybindings/src) are extracted and proved against the SAME '
+                      'postconditions as the core functions (C04, C03, C11) over the UTF-8 bytes of the string, so core and binding compute the same row / header / points; non-ASCII characters are bytes >= 0x80, '
+                      'which the spec treats as ambiguous / non-nucleotide bytes. The iterator wrappers __next__/to_acgt are single delegating calls to the functions verified under C01/C02/C09.',
+        'level_note': 'not verified: pyo3 argument conversion and the mapping of Err to ValueError, the transmute lifetime extension over Arc<[u8]> (unsafe, outside both tools), rayon batch order in vectorise_batch (assumed), '
+                      'interpreter behaviour. String::as_bytes is the UTF-8 encoding (assumed). No Python interpreter is run by this check.',
+        'not_reached': ['pyo3 glue, GIL, error mapping', 'unsafe transmute in pybindings/src/kmer.rs and min.rs', 'vectorise_batch order (rayon collect)'],
+        'fn_filter': r'^py::',
     },
 }
 
